@@ -14,7 +14,7 @@ CHECKER = "/verif/bin/martiancheck"
 
 def sh(cmd, cwd, timeout):
     try:
-        p = subprocess.run(cmd, cwd=cwd, env=ENV, stdout=subprocess.PIPE, stderr=subprocess.STDOUT, timeout=timeout, text=True)
+        p = subprocess.run(cmd, cwd=cwd, env=ENV, stdout=subprocess.PIPE, stderr=subprocess.STDOUT, timeout=timeout, text=True, errors="replace")
         return p.returncode, p.stdout
     except subprocess.TimeoutExpired as e:
         return 124, "TIMEOUT"
